@@ -38,6 +38,8 @@ TRUSTED = [
     "wire_label list of the wrong length, negative gate_pad / end_wire_ext) are not modelled",
 ]
 ASSUMES = [
+    "StyleConfig keywords other than gate_pad / end_wire_ext / align_layer / wire_label (gate_margin, dpi, theme, ...) are "
+    "passed to the real renderer with valid values and must leave the drawing unchanged; the model has no such parameters",
     "input domain wf_input: >= 1 qubit; targets non-empty, targets+controls distinct and < N; measurement has one "
     "target < N and classical_store < num_cbits; gate_pad >= 0; end_wire_ext >= 0; wire_label is None or has one "
     "string per wire",
@@ -97,6 +99,10 @@ def style_kwargs(st):
         kw["align_layer"] = bool(st["align"])
     if st.get("wire_label") is not None:
         kw["wire_label"] = list(st["wire_label"])
+    # every other StyleConfig keyword is accepted by TextRenderer(qc, **style) / draw("text", **style) and must not
+    # change the text drawing (gate_margin is overridden to 0 by TextRenderer.__init__): the model ignores them
+    for k, v in (st.get("extra") or {}).items():
+        kw[k] = v
     return kw
 
 
@@ -423,8 +429,25 @@ MNAMES = ["M", "M", "M0", "M1", "MZ", "MX", "MZ1", "Mq0", "m", "MEAS", "M_ab"]
 WLAB = ["a", "bb", "anc", "data0", "", "q", "reg 1", "Ψ", "out", "x:y"]
 
 
+# StyleConfig keywords that do not concern the text renderer, with valid values (gate_margin incl. fractional values)
+EXTRA_STYLE = {
+    "gate_margin": [0, 0.15, 0.5, 0.3, 1, 2, 1.25],
+    "dpi": [72, 150, 300], "fontsize": [8, 10, 14], "padding": [0, 0.3, 1.5], "wire_sep": [0.5, 1, 0.25],
+    "layer_sep": [0.5, 1.0, 2], "label_pad": [0.1, 0.5], "fig_height": [None, 4, 2.5], "fig_width": [None, 10, 6.5],
+    "bulge": [True, False, "round4", "square"], "theme": ["qutip", "light", "dark", "modern"],
+    "title": [None, "My circuit"], "bgcolor": [None, "#FFFFFF"], "color": [None, "#000000"],
+    "wire_color": [None, "#333333"],
+}
+
+
 def gen_style(rng, rich=True):
     st = {}
+    if rng.random() < 0.45:
+        ks = ["gate_margin"] if rng.random() < 0.6 else []
+        ks += rng.sample(sorted(k for k in EXTRA_STYLE if k != "gate_margin"), rng.randint(0, 3))
+        st["extra"] = {k: rng.choice(EXTRA_STYLE[k]) for k in ks}
+        if not st["extra"]:
+            del st["extra"]
     if rng.random() < 0.75:
         st["gate_pad"] = rng.choice([[0, 1], [1, 20], [3, 10], [1, 2], [1, 1], [3, 2], [2, 1], [9, 4], [3, 1]])
     if rng.random() < 0.7:
@@ -540,6 +563,13 @@ def directed_inputs():
     out.append(dict(nq=4, nc=3, ops=[m(3, 0, "MEAS"), g("CRX", [0], [2], "θ"), m(1, 2, "MZ1"), g("FREDKIN", [0, 1], [3]),
                                      m(0, 1, "Mq")], style=S(align=True, gate_pad=[0, 1], ext=0)))
     out.append(dict(nq=2, nc=1, ops=[m(1, 0, "M0"), m(0, 0, "M1"), g("H", [0])], style=S(gate_pad=[3, 2])))
+    # generic StyleConfig keywords: gate_margin (the documented default 0.15 and others) must not reach the layers
+    out.append(dict(nq=3, nc=1, ops=[g("H", [0]), g("CNOT", [1], [0]), m(2, 0, "M0"), g("SWAP", [0, 2]), g("CRX", [2], [0])],
+                    style=S(extra={"gate_margin": 0.15})))
+    out.append(dict(nq=2, nc=0, ops=[g("X", [0]), g("ISWAP", [0, 1]), g("X", [1])],
+                    style=S(ext=0, align=True, extra={"gate_margin": 0.5, "theme": "dark", "bulge": False, "dpi": 72, "fontsize": 14})))
+    out.append(dict(nq=2, nc=0, ops=[g("CZ", [0], [1]), g("H", [1])],
+                    style=S(extra={k: v[-1] for k, v in EXTRA_STYLE.items()})))
     # two-digit default labels (q10, q11): the decimal printer of the model
     out.append(dict(nq=12, nc=1, ops=[g("CNOT", [11], [9]), g("H", [10]), m(11, 0), g("SWAP", [0, 10])], style={}))
     return out
@@ -589,8 +619,17 @@ def correspond(ctx):
     files = []
     for k in range(0, len(cases), per):
         body = HEADER + "".join(coq_case(inp, r["seen"], fixed) for inp, r in cases[k:k + per])
-        files.append((f"c20_{k // per}", body))
-    outs = coq_eval_many(files)
+        files.append((f"c20_{os.getpid()}_{k // per}", body))   # per-process names: concurrent runs share coq/Cases
+    try:
+        outs = coq_eval_many(files)
+    finally:
+        for name, _ in files:
+            for p in glob.glob(os.path.join(VERIF, "coq", "Cases", name + ".*")) + \
+                     glob.glob(os.path.join(VERIF, "coq", "Cases", "." + name + ".*")):
+                try:
+                    os.remove(p)
+                except OSError:
+                    pass
     model = []
     for name, _ in files:
         model += parse_evals(outs[name])
@@ -625,6 +664,8 @@ def correspond(ctx):
         for k in ("align", "wire_label"):
             if st.get(k):
                 corr.tally("style:" + k)
+        for k in (st.get("extra") or {}):
+            corr.tally("style:extra:" + k)
         if st.get("gate_pad") and st["gate_pad"][0] == 0:
             corr.tally("style:gate_pad=0")
         if st.get("ext") == 0:
